@@ -213,14 +213,47 @@ Proof.
 Qed.
 
 (* ---------- truncateTail ---------- *)
-Lemma dinv_truncate_tail maxsz t n t' :
-  DInv maxsz t -> n < two32 -> t_head t + 1 < 65536 -> truncate_tail t n = Ok t' -> DInv maxsz t'.
+Lemma do_sync_data t t' :
+  do_sync t = Ok t' -> forall id f, dget id (t_data t) = Some f -> exists f', dget id (t_data t') = Some f' /\ fbytes f' = fbytes f.
+Proof.
+  unfold do_sync, sync_head, data_upd. cbn [sync_index w_index t_head t_data].
+  destruct (dget (t_head t) (t_data t)) as [hf|] eqn:Hf; [|discriminate]. intros E. inversion E; subst t'; clear E.
+  intros id f Hg. cbn [set_flush meta_write w_meta w_data t_data]. rewrite dget_dset.
+  destruct (N.eqb_spec id (t_head t)) as [->|Ne]; [|eauto]. exists (f_sync hf). split; [reflexivity|].
+  assert (f = hf) by congruence. subst f. reflexivity.
+Qed.
+
+(* what truncateTail leaves of the entries and of their bytes; the first kept entry starts its data file *)
+Definition kept_suffix (t t' : table) : Prop :=
+  (rest_of t' = [] /\ t_headbytes t' = 0) \/
+  (exists kd, rest_of t' = skipn kd (rest_of t) /\
+     (forall e, In e (rest_of t') -> forall f, dget (efile e) (t_data t) = Some f ->
+        exists f', dget (efile e) (t_data t') = Some f' /\ eoff e <= fsize f' /\
+                   firstn (N.to_nat (eoff e)) (fbytes f') = firstn (N.to_nat (eoff e)) (fbytes f)) /\
+     (match rest_of t' with [] => True | e :: _ => kd = O \/ (forall p, nth_error (rest_of t) (kd - 1) = Some p -> efile p <> efile e) end) /\
+     ((rest_of t = [] -> t_headbytes t = 0) -> rest_of t' = [] -> t_headbytes t' = 0)).
+
+Lemma kept_suffix_same maxsz t t' :
+  DInv maxsz t -> rest_of t' = rest_of t -> t_headbytes t' = t_headbytes t ->
+  (forall id, dget id (t_data t') = dget id (t_data t)) -> kept_suffix t t'.
+Proof.
+  intros (_ & DG & _) Hr Hhb Hd. right. exists O. split; [exact Hr|]. split; [|split].
+  - intros e He f Hf. rewrite Hr in He. destruct (DG e He) as (g & Hg & Hle). assert (g = f) by congruence. subst g.
+    exists f. rewrite Hd. repeat split; assumption.
+  - destruct (rest_of t'); [exact I|left; reflexivity].
+  - intros H0 Z. rewrite Hhb. apply H0. rewrite <- Hr. exact Z.
+Qed.
+
+Lemma dinv_truncate_tail_sfx maxsz t n t' :
+  DInv maxsz t -> n < two32 -> t_head t + 1 < 65536 -> truncate_tail t n = Ok t' -> DInv maxsz t' /\ kept_suffix t t'.
 Proof.
   intros HD Hn Hhd E.
   assert (HI' : IdxInv maxsz t') by (destruct HD as [HI _]; eapply inv_truncate_tail; eauto).
   unfold truncate_tail in E. cbv zeta in E.
-  destruct (N.leb_spec n (t_hidden t)) as [L1|L1]; [inversion E; subst; exact HD|].
-  destruct (N.ltb_spec (t_items t) n) as [L2|L2]; [eapply dinv_reset_to; eauto|].
+  destruct (N.leb_spec n (t_hidden t)) as [L1|L1]; [inversion E; subst; split; [exact HD|apply (kept_suffix_same maxsz); auto]|].
+  destruct (N.ltb_spec (t_items t) n) as [L2|L2].
+  { split; [eapply dinv_reset_to; eauto|]. left. pose proof (reset_to_core _ _ _ E) as C. cbv zeta in C. unfold core in C.
+    injection C as P1 P2 P3 P4 P5 P6 P7 P8 P9. split; [unfold rest_of; rewrite P7; reflexivity|exact P6]. }
   match type of E with (match ?X with _ => _ end) = _ => destruct X as [newtail|] eqn:EN end; [|discriminate].
   set (T2 := set_vtail (w_counters t (t_items t) (t_offset t) n (t_head t) (t_tail t) (t_headbytes t)) n false) in E.
   assert (HD2 : DInv maxsz T2).
@@ -230,17 +263,17 @@ Proof.
       unfold IdxInv. apply (inv_set_hidden maxsz _ _ _ _ _ _ _ _ _ n) in HI; [exact HI|lia|lia]. }
     exact (conj HI2 (conj DG (conj DH (conj DI (conj DJ (conj DL (conj DN (conj DO DP)))))))). }
   change (t_tail T2) with (t_tail t) in E.
-  destruct (N.eqb_spec (t_tail t) newtail) as [Q|Q]; [inversion E; subst; exact HD2|].
+  destruct (N.eqb_spec (t_tail t) newtail) as [Q|Q]; [inversion E; subst; split; [exact HD2|apply (kept_suffix_same maxsz); auto]|].
   destruct (N.ltb_spec newtail (t_tail t)) as [Q2|Q2]; [discriminate|].
   destruct (do_sync T2) as [t3|] eqn:ES; [|discriminate].
   pose proof (dinv_do_sync _ _ _ HD2 ES) as (HI3 & DG & DH & DI & DJ & DL & DN & DO & DP).
   pose proof (do_sync_core _ _ ES) as C3.
   change (core t3 = (t_items t, t_offset t, n, t_head t, t_tail t, t_headbytes t, f_sync (t_index t),
                      mkMeta 2 n (fsize (t_index t)), mkMeta 2 n (fsize (t_index t)))) in C3.
-  unfold core in C3. inversion C3 as [[P1 P2 P3 P4 P5 P6 P7 P8 P9]].
+  unfold core in C3. injection C3 as P1 P2 P3 P4 P5 P6 P7 P8 P9.
   assert (Hsall : synced_of t3 = rest_of t3).
   { apply (synced_all maxsz); [exact HI3|]. rewrite P8, P7. reflexivity. }
-  destruct (tail_scan _ _ _ _ _ _) as [newdel|]; [|discriminate].
+  destruct (tail_scan _ _ _ _ _ _) as [newdel|] eqn:ET; [|discriminate].
   match type of E with context [release_before ?X _ _] => set (T5 := X) in E end.
   destruct (_ <=? _); [discriminate|]. inversion E; subst t'; clear E.
   set (t' := set_flush _ _) in *.
@@ -271,6 +304,58 @@ Proof.
   assert (Hhd' : t_head t' = t_head t3) by reflexivity.
   assert (Hhb' : t_headbytes t' = t_headbytes t3) by reflexivity.
   destruct (inv_monotone _ _ HI') as [M1 M2]. rewrite Htl, Hhd' in M1. 
+  split.
+  2:{ right. exists kd.
+      assert (Hr3 : rest_of t3 = rest_of t) by (unfold rest_of; rewrite P7; reflexivity).
+      pose proof (proj1 HD) as HI. pose proof HI as HI0. unfold IdxInv, core, IdxInvC in HI0. inv_destruct HI0.
+      pose proof (rest_of_inv t rest Hb Hwf Ht Ho) as Hrt. pose proof (idx_size _ _ _ _ Hb) as Hsz.
+      (* the scan *)
+      rewrite P7, P2 in ET. cbn [f_sync fbytes] in ET. rewrite Hb in ET.
+      set (j := N.to_nat (n - t_offset t)).
+      assert (Hj : n = t_offset t + N.of_nat j) by (subst j; lia).
+      assert (Hwfh : forallb entry_wf (mkE (t_tail t) (t_offset t) :: rest) = true).
+      { cbn [forallb]. unfold entry_wf at 1. cbn [efile eoff].
+        replace (t_tail t <? 65536) with true by (symmetry; apply N.ltb_lt; exact Ht).
+        replace (t_offset t <? two32) with true by (symmetry; apply N.ltb_lt; exact Ho). exact Hwf. }
+      replace (n - 1) with (scan_cur (t_offset t) j) in ET by (unfold scan_cur, two64, two32 in *; lia).
+      rewrite Hj in ET.
+      assert (Hfuel : (j < S (S (flen (f_sync (t_index t)))))%nat).
+      { unfold flen. cbn [f_sync fbytes]. rewrite Hb, concat_enc_length. cbn [length]. lia. }
+      pose proof (tail_scan_spec (mkE (t_tail t) (t_offset t)) rest newtail j _ newdel Hwfh Q ltac:(cbn [eoff]; lia) Hfuel ET) as [[S1 S2] S3].
+      cbn [eoff] in S1, S2, S3.
+      assert (Hkd : kd = N.to_nat (newdel - t_offset t)) by (subst kd; rewrite P2; reflexivity).
+      rewrite Hr, Hr3, Hrt.
+      split; [reflexivity|]. split; [|split].
+      - intros e He f Hf. assert (He' : In e (rest_of t')) by (rewrite Hr, Hr3, Hrt; exact He).
+        destruct (M2 e He') as [Me _]. rewrite Htl in Me.
+        destruct (do_sync_data _ _ ES (efile e) f Hf) as (f3 & Hf3 & Hb3).
+        exists f3. rewrite Hkeep by exact Me. split; [exact Hf3|].
+        assert (He3 : In e (rest_of t3)) by (rewrite Hr3, Hrt; eapply in_skipn; eauto).
+        destruct (DG e He3) as (g & Hg & Hle). assert (g = f3) by congruence. subst g. split; [exact Hle|]. rewrite Hb3. reflexivity.
+      - destruct (skipn kd rest) as [|e0 r0] eqn:Es; [exact I|].
+        destruct (N.eq_dec newdel (t_offset t)) as [Z|Z]; [left; lia|right].
+        intros p Hp.
+        destruct (tail_scan_stop (mkE (t_tail t) (t_offset t)) rest newtail j _ newdel Hwfh Q ltac:(cbn [eoff]; lia) Hfuel ET ltac:(cbn [eoff]; lia)) as (e1 & He1 & Hne1).
+        cbn [eoff] in He1. rewrite <- Hkd in He1. assert (p = e1) by congruence. subst p.
+        (* the first kept entry lies in the new tail file *)
+        assert (He0 : efile e0 = newtail).
+        { apply skipn_hd in Es. destruct (N.ltb_spec newdel (t_offset t + N.of_nat j)) as [W|W].
+          - destruct (S3 W) as (e2 & X1 & X2). rewrite <- Hkd in X1. congruence.
+          - assert (kd = j) by lia. rewrite H in Es.
+            destruct (N.eqb_spec (t_items t) n) as [Zi|Zi].
+            + exfalso. assert ((j < length rest)%nat) by (apply nth_error_Some; congruence). lia.
+            + rewrite Hb in EN. replace ((n - t_offset t + 1) * 6) with (6 * N.of_nat (S j)) in EN by lia.
+              rewrite read6_enc in EN by exact Hwfh. cbn [nth_error] in EN. rewrite Es in EN. inversion EN. reflexivity. }
+        rewrite He0. exact Hne1.
+      - intros _ Z. exfalso.
+        (* nothing left would mean the scan stopped at the head entry, which lies in the head = new tail file *)
+        apply (f_equal (@length entry)) in Z. rewrite skipn_length in Z. cbn [length] in Z.
+        assert (newdel = t_items t) by lia. assert (n = t_items t) by lia.
+        destruct (N.eqb_spec (t_items t) n) as [Zi|Zi]; [|lia]. injection EN as Hnt.
+        destruct (tail_scan_stop (mkE (t_tail t) (t_offset t)) rest newtail j _ newdel Hwfh Q ltac:(cbn [eoff]; lia) Hfuel ET ltac:(cbn [eoff]; lia)) as (e1 & He1 & Hne1).
+        cbn [eoff] in He1. assert (Hl : (N.to_nat (newdel - t_offset t) - 1 = length rest - 1)%nat) by lia. rewrite Hl in He1.
+        assert (Hrne : rest <> []) by (intros Zr; rewrite Zr in He1; destruct (0 - 1)%nat; discriminate).
+        rewrite (nth_error_last rest (mkE (t_tail t) 0) Hrne) in He1. inversion He1; subst e1. apply Hne1. rewrite <- Hnt. symmetry. exact Hh. }
   refine (conj HI' (conj _ (conj _ (conj _ (conj _ (conj _ (conj _ (conj _ _)))))))).
   - intros e He. destruct (M2 e He) as [Me _]. rewrite Htl in Me. rewrite Hr in He. apply in_skipn in He.
     destruct (DG e He) as [f [Hf Hle]]. exists f. rewrite Hkeep by exact Me. split; assumption.
@@ -287,6 +372,10 @@ Proof.
     exists g. rewrite Hkeep by exact Hge. exact Hg.
   - intros id Hid. apply Hop in Hid. rewrite Hhd'. apply DP. exact (proj1 Hid).
 Qed.
+
+Lemma dinv_truncate_tail maxsz t n t' :
+  DInv maxsz t -> n < two32 -> t_head t + 1 < 65536 -> truncate_tail t n = Ok t' -> DInv maxsz t'.
+Proof. intros HD Hn Hh E. exact (proj1 (dinv_truncate_tail_sfx maxsz t n t' HD Hn Hh E)). Qed.
 
 Lemma inv_off_le_hb maxsz t :
   IdxInv maxsz t -> forall e, In e (rest_of t) -> efile e = t_head t -> eoff e <= t_headbytes t.
